@@ -74,10 +74,11 @@ func hostileAddrs() [][]byte {
 }
 
 func FuzzSocks5Addr(f *testing.F) {
-	for _, s := range hostileAddrs() {
-		f.Add(uint16(0), s)
-		f.Add(uint16(0x0111), append(append([]byte(nil), s...), "trailing"...))
+	addrs := hostileAddrs()
+	for _, i := range thin(len(addrs), 150) {
+		f.Add(uint16(0), addrs[i])
 	}
+	f.Add(uint16(0x0111), append(append([]byte(nil), addrs[0]...), "trailing"...))
 	f.Fuzz(func(t *testing.T, frag uint16, data []byte) { oracleSocks5Addr(t, frag, data) })
 }
 
@@ -226,15 +227,14 @@ func socks5ServerSeeds() (sels []uint8, seeds [][]byte) {
 
 func FuzzSocks5Server(f *testing.F) {
 	sels, seeds := socks5ServerSeeds()
-	for i := range seeds {
-		f.Add(sels[i], uint16(0), seeds[i])
-		f.Add(sels[i]|uint8(i%14)<<4, uint16(0x1001), seeds[i])
+	for _, i := range thin(len(seeds), 160) {
+		f.Add(sels[i]|uint8(i%14)<<4|uint8(i&1)<<3, uint16(i%3), seeds[i])
 	}
 	f.Fuzz(func(t *testing.T, sel uint8, frag uint16, data []byte) { oracleSocks5Server(t, sel, frag, data) })
 }
 
 // sel: bit0 auth, bit1 enableTCP, bit2 enableUDP, bit3 abort instead of proceed, bits4-7 dial result code index
-func oracleSocks5Server(t failer, sel uint8, frag uint16, data []byte) {
+func oracleSocks5Server(t failer, sel uint8, frag uint16, data []byte) (out oracleResult) {
 	desc := func() string { return fmt.Sprintf("sel=%#x frag=%#x data=%s", sel, frag, hexs(data)) }
 	cfg := socks5.StreamServerConfig{Users: s5Users, EnableUserPassAuth: sel&1 != 0, EnableTCP: sel&2 != 0, EnableUDP: sel&4 != 0}
 	server, err := cfg.NewStreamServer()
@@ -252,6 +252,7 @@ func oracleSocks5Server(t failer, sel uint8, frag uint16, data []byte) {
 		if herr == netio.ErrHandleStreamDone {
 			// UDP ASSOCIATE handled: a reply with the bound address was written.
 			res := useAddr(t, recS5Server, "socks5-server-udpassoc", req.Addr, req.Username, true)
+			out = oracleResult{true, req.Addr, req.Username, res}
 			recS5Server.Case(fmt.Sprintf("assoc/%d/%s", sel&1, addrClass(req.Addr)), res.routed > 0 && len(written(srv)) > 2, append(labels, "udp-associate")...)
 			return
 		}
@@ -262,6 +263,7 @@ func oracleSocks5Server(t failer, sel uint8, frag uint16, data []byte) {
 		t.Fatalf("SIG=C06/socks5-server-empty-request VERIF-VIOLATION HandleStream returned no error and no request: %s", desc())
 	}
 	res := useAddr(t, recS5Server, "socks5-server", req.Addr, req.Username, false)
+	out = oracleResult{true, req.Addr, req.Username, res}
 	replied := false
 	guard(t, recS5Server, "socks5-server-answer", desc, func() {
 		before := len(written(srv))
@@ -284,6 +286,7 @@ func oracleSocks5Server(t failer, sel uint8, frag uint16, data []byte) {
 	})
 	cls := addrClass(req.Addr)
 	recS5Server.Case(fmt.Sprintf("connect/%d/%s", sel&1, cls), res.routed > 0 && replied, append(labels, "accepted", "class:"+cls)...)
+	return
 }
 
 // ---------------------------------------------------------------- SOCKS5 client (reply parsing)
@@ -347,9 +350,8 @@ func socks5ClientSeeds() (sels []uint8, seeds [][]byte) {
 
 func FuzzSocks5Client(f *testing.F) {
 	sels, seeds := socks5ClientSeeds()
-	for i := range seeds {
-		f.Add(sels[i], uint16(0), seeds[i])
-		f.Add(sels[i]|uint8(i%4)<<2, uint16(0x0011), seeds[i])
+	for _, i := range thin(len(seeds), 160) {
+		f.Add(sels[i]|uint8(i%4)<<2, uint16(i%3), seeds[i])
 	}
 	f.Fuzz(func(t *testing.T, sel uint8, frag uint16, data []byte) { oracleSocks5Client(t, sel, frag, data) })
 }
